@@ -559,6 +559,145 @@ def _corr_sevenzip(ctx, broken, tmp):
     ctx.coverage["sevenzip_mismatches"] = bad
 
 
+
+# ------------------------------------------------------------------------------------------- the Lean writer specification
+_MTIME0 = 0x01DC7D4A6F24B200
+
+
+def _layout_request(members, groups, coders, opts):
+    """(request for op c10.write_header, pack streams) for the layout W.build_7z(members, groups, coders, **opts) packs.
+    Entries without a stream are listed with the folder of the next non-empty file; trailing ones form the tail."""
+    attrs = opts.get("attrs")
+    av = opts.get("attr_values")
+
+    def entry(j, n, k, d):
+        if av is not None:
+            a = av[j]
+        elif attrs == "win":
+            a = 0x10 if k == "dir" else 0x20
+        elif attrs:
+            a = ((0o040755 << 16) | 0x8000 | 0x10) if k == "dir" else ((0o100644 << 16) | 0x8000 | 0x20)
+        else:
+            a = 0
+        return {"n": _cps(n), "d": k == "dir", "s": len(d), "a": a, "t": _MTIME0 + 7 * j, "c": zlib.crc32(d)}
+
+    folders, pending, packs = [], [], []
+    gi, left, cur, cur_data = 0, (groups[0] if groups else 0), [], b""
+    for j, (n, k, d) in enumerate(members):
+        e = entry(j, n, k, d)
+        if not (k == "file" and d):
+            pending.append(e)
+            continue
+        cur += pending + [e]
+        pending = []
+        cur_data += d
+        left -= 1
+        if left == 0:
+            cid, props, packed = W.encode(coders[gi], cur_data)
+            folders.append({"m": coders[gi], "props": list(props) if props is not None else [], "pack": len(packed),
+                            "pcrc": zlib.crc32(packed), "crc": zlib.crc32(cur_data), "entries": cur})
+            packs.append(packed)
+            gi += 1
+            left, cur, cur_data = (groups[gi] if gi < len(groups) else 0), [], b""
+    body = b"".join(packs)
+    rq = {"op": "c10.write_header", "pack_pos": 0, "body_len": len(body), "folders": folders, "tail": pending,
+          "opts": {"pack_crc": bool(opts.get("with_pack_crc")), "folder_crc": bool(opts.get("folder_crc")),
+                   "always_num_streams": bool(opts.get("always_num_streams")), "attrs": bool(attrs),
+                   "mtime": bool(opts.get("mtime")), "dummy": int(opts.get("dummy") or 0),
+                   "names_first": bool(opts.get("names_first"))}}
+    return rq, body
+
+
+def _writer_opts(rng, i):
+    """all option combinations are swept (i counts the cases), the rest is drawn"""
+    return dict(encode_header=None, attrs=["win", "unix", None][i % 3], mtime=bool((i // 3) & 1), dummy=[0, 1, 5, 300][(i // 6) % 4],
+                with_pack_crc=bool((i // 24) & 1), always_num_streams=bool((i // 48) & 1), names_first=bool((i // 96) & 1),
+                folder_crc=bool((i // 192) & 1))
+
+
+def _corr_writer(ctx, broken, tmp):
+    """the writer specification of Props/C10_Header.lean (op c10.write_header = `writeHeader` / `startHeader` / `stateOf`):
+    (i) its bytes == the bytes of the independent Python writer for the same layout, every option combination;
+    (ii) the archive assembled from ITS header and Python's pack streams, read by the REAL SevenZipReader, gives exactly
+    `stateOf L` (and extractall the packed files) — or is rejected where the theorem's excluding hypothesis says so."""
+    rng = ctx.rng
+    # primitives: all nine length classes of `number`, bit vectors of every length 0..40, names incl. surrogate pairs
+    preqs, pexp = [], []
+    for k in range(9):
+        lo = 0 if k == 0 else 1 << (7 * k)
+        hi = (1 << (7 * (k + 1))) if k < 8 else (1 << 64)
+        for n in (lo, hi - 1, rng.randrange(lo, hi), rng.randrange(lo, hi)):
+            bits = [rng.random() < 0.5 for _ in range(rng.randint(0, 40))]
+            name = rng.choice(_STEMS) + rng.choice(["", "\U0001F600", "\U0010FFFF\uFFFF", "\uD7FF\uE000"])
+            preqs.append({"op": "c10.wprim", "n": n, "bits": bits, "name": _cps(name)})
+            pexp.append({"num": list(W.number(n)), "bits": list(W.bitvector(bits)), "name": list(name.encode("utf-16-le") + b"\x00\x00")})
+    for rq, ex, o in zip(preqs, pexp, ctx.drive(preqs)):
+        ctx.case(("wprim", rq["n"], tuple(rq["bits"]), tuple(rq["name"])), nontrivial=True)
+        ctx.count("writer/prim/" + ("ok" if o == ex else "DIFF"))
+        if o != ex:
+            broken.append(Broken("correspondence", "c10.wprim", f"python writer={ex} lean spec={o}", case={"kind": "bytes", "req": rq}))
+    cases = []
+    for i in range(ctx.n(384, 3072)):
+        ms = _members(rng, rng.choice([0, 1, 2, 3, 4, 5, 6, 8]), "a.7z")
+        k = sum(1 for (_, kind, d) in ms if kind == "file" and d)
+        gs, tag = _groups(rng, k)
+        coders = [rng.choice(["copy", "lzma", "lzma2"]) for _ in gs]
+        opts = _writer_opts(rng, i)
+        if sum(len(d) for _, _, d in ms) > 5000:
+            ctx.count("writer/skipped-large")
+            continue
+        cases.append((ms, gs, coders, opts, tag))
+    reqs, bodies = [], []
+    for ms, gs, coders, opts, tag in cases:
+        rq, body = _layout_request(ms, gs, coders, opts)
+        reqs.append(rq)
+        bodies.append(body)
+    outs = ctx.drive(reqs)
+    bad = 0
+    for (ms, gs, coders, opts, tag), rq, body, o in zip(cases, reqs, bodies, outs):
+        spec = {"groups": gs, "coders": coders, "opts": opts}
+        case = {"kind": "7z", "members": _ser_members(ms), "spec": spec}
+        if "drv_error" in o:
+            broken.append(Broken("correspondence", "c10.write_header", "driver: " + str(o["drv_error"]), case=case))
+            continue
+        lean = bytes(o["start"]) + body + bytes(o["header"])
+        ctx.case(("writer", lean), nontrivial=bool(body))
+        mixed = bool(opts["folder_crc"]) and any(g == 1 for g in gs) and any(g > 1 for g in gs)
+        ctx.count("writer/" + tag.split("/")[0] + ("/folder-crc-mixed" if mixed else ""))
+        problems = []
+        if not o["wf"]:
+            problems.append("a generated layout is not WellFormed")
+        if o["mixed"] != mixed:
+            problems.append(f"mixedWithFolderCrc={o['mixed']} but the layout says {mixed}")
+        py = W.build_7z(ms, gs, coders, **opts)
+        if py != lean:
+            at = next((j for j, (a, b) in enumerate(zip(py, lean)) if a != b), min(len(py), len(lean)))
+            problems.append(f"bytes differ from the Python writer at offset {at} (python {len(py)} bytes, lean {len(lean)} bytes)")
+        try:
+            real, log, _ = _real_sevenzip(lean, tmp)
+        except _Skip as e:
+            ctx.count(f"writer/skipped-{e}")
+            real = None
+        if real is not None:
+            if mixed:   # the excluding hypothesis of the round-trip theorem: the reader rejects these (known finding)
+                ctx.count("writer/mixed-folder-crc/" + ("rejected" if real.get("err") == "bad7z" else "accepted"))
+            else:
+                if real.get("r") != o["state"]:
+                    diff = ["r." + k for k in o["state"] if (real.get("r") or {}).get(k) != o["state"].get(k)] if "r" in real else ["err"]
+                    problems.append(f"reader state != stateOf L: {sorted(diff)}; impl={_short(real, diff + ['err'])} spec={_short({'r': o['state']}, diff)}")
+                want = ([[_cps(n), list(d)] for n, kk, d in ms if kk == "file" and d] + [[_cps(n), []] for n, kk, d in ms if kk == "file" and not d])
+                if real.get("writes") != want and "r" in real:
+                    problems.append("extractall of the Lean-written archive did not write the packed files with their own bytes")
+        if problems:
+            bad += 1
+            if bad <= 6:
+                broken.append(Broken("correspondence", "c10.write_header", f"{tag} groups={gs} coders={coders} opts={opts}: " + "; ".join(problems), case=case))
+    if cases:
+        ctx.sample({"op": "c10.write_header", "layout": {"groups": cases[0][1], "coders": cases[0][2], "opts": cases[0][3]},
+                    "header_bytes": len(outs[0].get("header", [])), "wf": outs[0].get("wf")})
+    ctx.coverage["writer_mismatches"] = bad
+
+
 def _short(d, keys):
     out = {}
     for k in keys:
@@ -830,6 +969,7 @@ def correspondence(ctx):
         _corr_numbers(ctx, broken)
         _corr_detect(ctx, broken)
         _corr_sevenzip(ctx, broken, tmp)
+        _corr_writer(ctx, broken, tmp)
         _corr_loops(ctx, broken)
     return {"broken": broken, "violations": violations}
 
@@ -998,6 +1138,12 @@ WITNESSES = [
      {"groups": [1], "coders": ["copy"], "opts": _WIN}),
     ("7z.non-bmp-name-aborts-archive", "7z", None, [("a.txt", "file", b"alpha"), ("s\U0001F600.txt", "file", b"smile")],
      {"groups": [2], "coders": ["copy"], "opts": _WIN}),
+    # open known findings found by the header round-trip proof (counterexample theorems of Props/C10_Header.lean)
+    ("7z.substream-digests-with-folder-crc", "7z", None,
+     [("a.txt", "file", b"alpha"), ("b.txt", "file", b"bravo!"), ("c.txt", "file", b"charlie")],
+     {"groups": [1, 2], "coders": ["copy", "copy"], "opts": dict(_WIN, folder_crc=True)}),
+    ("7z.attributes-external-byte-not-read", "7z", None, [("x.txt", "file", b"x-ray"), ("y.txt", "file", b"yankee")],
+     {"groups": [2], "coders": ["copy"], "opts": dict(_WIN, attr_values=[0x10000020, 0x20])}),
     ("tar.first-member-name-shadows-magic", "tar", "", [("BZnotes.txt", "file", b"bravo zulu"), ("b.txt", "file", b"bravo")], None),
     # open known finding: an empty plain tar is 10240 zero bytes, there is nothing to detect it by
     ("tar.empty-archive-fails.plain", "tar", "", [], None),
@@ -1005,7 +1151,8 @@ WITNESSES = [
 
 
 def known_witnesses(ctx):
-    """the witnesses of the four repaired defects (counterexample theorems), re-run on the real code every run"""
+    """the witnesses of the four repaired defects and of the open known findings (counterexample theorems), re-run on the
+    real code every run"""
     out = []
     for key, fmt, sub, members, spec in WITNESSES:
         data, ap, _, _ = _build_archive(ctx.rng, members, fmt, sub, spec)
